@@ -10,6 +10,7 @@ CONSTANTS
 INVARIANT TypeOK
 INVARIANT RcInvolution
 INVARIANT ComplementLaws
+INVARIANT ComplementRcLaw
 INVARIANT EncodeResolveInverse
 INVARIANT SixFrameLaw
 INVARIANT AnticodonFrameLaw
